@@ -2,6 +2,7 @@ package main
 
 import (
 	"bytes"
+	"encoding/hex"
 	"fmt"
 	"strings"
 
@@ -250,9 +251,85 @@ func c05Record(c *Ctx, stream string, g *GenRR) {
 	}
 }
 
+// privRdata: the RDATA of a privately registered type (PrivateHandle): one hex word
+type privRdata struct{ b []byte }
+
+func (p *privRdata) String() string { return hx(p.b) }
+func (p *privRdata) Parse(txt []string) error {
+	b, err := hex.DecodeString(strings.Join(txt, ""))
+	p.b = b
+	return err
+}
+func (p *privRdata) Pack(buf []byte) (int, error) {
+	if len(buf) < len(p.b) {
+		return 0, fmt.Errorf("short buffer")
+	}
+	return copy(buf, p.b), nil
+}
+func (p *privRdata) Unpack(buf []byte) (int, error) {
+	p.b = append([]byte{}, buf...)
+	return len(buf), nil
+}
+func (p *privRdata) Copy(dst dns.PrivateRdata) error {
+	dst.(*privRdata).b = append([]byte{}, p.b...)
+	return nil
+}
+func (p *privRdata) Len() int { return len(p.b) }
+
+// c05PrivateTypes: a type code printed under a privately registered mnemonic, and again after the registration is
+// removed: whatever String() prints at either moment must be accepted by the parser at that moment and give the same
+// record (type codes inside NSEC / CSYNC bitmaps and RRSIG "type covered" included).
+func c05PrivateTypes(c *Ctx) {
+	c05PrivateType(c, 65281, true)
+	c05PrivateType(c, 65282, false) // first printed while registered
+}
+
+func c05PrivateType(c *Ctx, code uint16, before bool) {
+	mk := func() []dns.RR {
+		return []dns.RR{
+			&dns.NSEC{Hdr: dns.RR_Header{Name: "a.example.", Rrtype: dns.TypeNSEC, Class: 1, Ttl: 60}, NextDomain: "b.example.", TypeBitMap: []uint16{1, 46, code}},
+			&dns.CSYNC{Hdr: dns.RR_Header{Name: "a.example.", Rrtype: dns.TypeCSYNC, Class: 1, Ttl: 60}, Serial: 7, Flags: 3, TypeBitMap: []uint16{2, code}},
+			&dns.RRSIG{Hdr: dns.RR_Header{Name: "a.example.", Rrtype: dns.TypeRRSIG, Class: 1, Ttl: 60}, TypeCovered: code, Algorithm: 13, Labels: 2,
+				OrigTtl: 60, Expiration: 1700000000, Inception: 1600000000, KeyTag: 9, SignerName: "example.", Signature: "AAEC"},
+		}
+	}
+	roundTrip := func(phase string) {
+		for _, rr := range mk() {
+			txt := rr.String()
+			back, err := dns.NewRR(txt)
+			ok := err == nil && back != nil && dns.IsDuplicate(rr, back)
+			detail := "ok"
+			if err != nil {
+				detail = err.Error()
+			} else if !ok {
+				detail = "a different record"
+			}
+			c.Pred("private-types", "text-rereads:"+phase, txt, ok, detail, "the same record", true)
+		}
+		name := dns.Type(code).String()
+		if v, ok := dns.StringToType[name]; ok {
+			c.Pred("private-types", "mnemonic-known:"+phase, name, v == code, fmt.Sprint(v), fmt.Sprint(code), true)
+		} else {
+			c.Pred("private-types", "mnemonic-known:"+phase, name, name == fmt.Sprintf("TYPE%d", code), name, "TYPEnnn when not registered", true)
+		}
+	}
+	if before {
+		roundTrip("before")
+	}
+	dns.PrivateHandle(fmt.Sprintf("XPRIV%d", code), code, func() dns.PrivateRdata { return new(privRdata) })
+	roundTrip("registered")
+	dns.PrivateHandleRemove(code)
+	roundTrip("removed")
+	dns.PrivateHandle(fmt.Sprintf("YPRIV%d", code), code, func() dns.PrivateRdata { return new(privRdata) })
+	roundTrip("registered-again")
+	dns.PrivateHandleRemove(code)
+	roundTrip("removed-again")
+}
+
 func runC05(c *Ctx) {
 	r := c.R
 	t := loadSpec()
+	c05PrivateTypes(c)
 	c.Res.Rule = "records of every type with a presentation format, decoded from generated wire data that is well formed for the type (strings with quotes, backslashes, semicolons, parentheses, blanks, newlines, non-ASCII; 255-octet and empty strings) and re-read from text; all 65536 type and class codes; RFC 3597 generic form; distinct by content"
 	per := c.Scale(120, 2500)
 	for _, typ := range t.wireTypes() {
